@@ -158,8 +158,16 @@ func c16r2(r *R) {
 			if !ok || typeStr(mu.Map.Type()) != "net/http.Header" {
 				return
 			}
-			lk, ok := mu.Value.(*ssa.Lookup)
-			if !ok || describe(lk.X) != describe(mu.Map) {
+			var lk *ssa.Lookup
+			switch v := mu.Value.(type) {
+			case *ssa.Lookup:
+				lk = v
+			case *ssa.Extract: // v, ok := m[b]
+				if l, ok := v.Tuple.(*ssa.Lookup); ok && v.Index == 0 {
+					lk = l
+				}
+			}
+			if lk == nil || describe(lk.X) != describe(mu.Map) {
 				return
 			}
 			a, b := describe(mu.Key), describe(lk.Index)
